@@ -9,6 +9,9 @@
 (*    run3 l  : eko run l/theory.yaml l/operator.yaml out.tar                       *)
 (*    run2x l : eko run l/theory.yaml m/operator.yaml  with m the other location:    *)
 (*              the output is placed next to the OPERATOR card (in m)                *)
+(*    insp_mu2 l / insp_cards l : eko inspect -p l/eko.tar mu2grid | cards            *)
+(*              read-only commands: print the evolution points / the two cards of an  *)
+(*              archive as JSON (beyond the statement of C49: conformance grade)      *)
 (* Two designs, selected by switches transcribed from /repo/src/ekobox/cli:         *)
 (*    DestMustExist  library.destination: click.Path(exists=True) refuses a         *)
 (*                   destination that does not exist yet (exit 2), although         *)
@@ -29,7 +32,9 @@ OutStates == {"none", "stale", "eko"}        \* stale: a file that was there bef
 FsStates == [dir : [Locs -> BOOLEAN], cards : [Locs -> CardStates], out : [Outs -> OutStates]]
 WellFormed(s) == \A l \in Locs : ~s.dir[l] => s.cards[l] = "none" /\ s.out[l] = "none"
 
-Cmds == [op : {"gen"}, l : Locs] \cup [op : {"run1", "run2", "run3", "run2x"}, l : Locs]
+Runs == {"run1", "run2", "run3", "run2x"}
+Inspects == {"insp_mu2", "insp_cards"}
+Cmds == [op : {"gen"}, l : Locs] \cup [op : Runs, l : Locs] \cup [op : Inspects, l : Locs]
 Other(l) == IF l = "rc" THEN "D" ELSE "rc"
 Target(c) == IF c.op = "run3" THEN "X" ELSE IF c.op = "run2x" THEN Other(c.l) ELSE c.l
 Runnable(c, s) == /\ s.cards[c.l] = "valid"
@@ -42,6 +47,8 @@ Result(c, s) ==
        ELSE IF ExampleNumpy
             THEN [exit |-> "fail", fs |-> [s EXCEPT !.dir[c.l] = TRUE, !.cards[c.l] = "partial"]]
             ELSE [exit |-> "ok", fs |-> [s EXCEPT !.dir[c.l] = TRUE, !.cards[c.l] = "valid"]]
+  ELSE IF c.op \in Inspects
+       THEN [exit |-> IF s.out[c.l] = "eko" THEN "ok" ELSE "fail", fs |-> s]   \* never writes
   ELSE IF Runnable(c, s)
        THEN [exit |-> "ok", fs |-> [s EXCEPT !.out[Target(c)] = "eko"]]
        ELSE [exit |-> "fail", fs |-> s]       \* missing card: FileNotFoundError; output there: OutputExistsError
@@ -54,12 +61,18 @@ C49_Gen(st) == st.cmd.op = "gen" =>
                  /\ st.exit = "ok"
                  /\ st.post.dir[st.cmd.l] /\ st.post.cards[st.cmd.l] = "valid"
                  /\ st.cardsEq = "equal"
-C49_Run(st) == (st.cmd.op # "gen" /\ Runnable(st.cmd, st.pre)) =>
+C49_Run(st) == (st.cmd.op \in Runs /\ Runnable(st.cmd, st.pre)) =>
                  /\ st.exit = "ok"
                  /\ st.post.out[Target(st.cmd)] = "eko"
                  /\ st.ops = "same"
 (* not part of the statement, checked as conformance: refused runs change nothing      *)
-RunRefused(st) == (st.cmd.op # "gen" /\ ~Runnable(st.cmd, st.pre)) => st.exit = "fail" /\ st.post = st.pre
+RunRefused(st) == (st.cmd.op \in Runs /\ ~Runnable(st.cmd, st.pre)) => st.exit = "fail" /\ st.post = st.pre
+(* inspection: succeeds exactly on an archive, prints what the library reads from it (st.ops = "same"), *)
+(* and leaves the working directory as it was                                                        *)
+Inspect(st) == st.cmd.op \in Inspects =>
+                 /\ st.post = st.pre
+                 /\ st.exit = (IF st.pre.out[st.cmd.l] = "eko" THEN "ok" ELSE "fail")
+                 /\ (st.exit = "ok" => st.ops = "same")
 Frame(st) == /\ \A l \in Locs \ {st.cmd.l} : st.post.dir[l] = st.pre.dir[l] /\ st.post.cards[l] = st.pre.cards[l]
-             /\ \A o \in Outs : (st.cmd.op = "gen" \/ o # Target(st.cmd)) => st.post.out[o] = st.pre.out[o]
+             /\ \A o \in Outs : (st.cmd.op \notin Runs \/ o # Target(st.cmd)) => st.post.out[o] = st.pre.out[o]
 =============================================================================
